@@ -201,6 +201,21 @@ def oracle(ctx, case):
         if pos[0] != len(rows):
             trace.append("<end of the document>")
             raise _OutOfOrder()
+        # the other entry point: validate_segment_level on every top-level group gives that group's part of the report; on a segment it gives
+        # what validate_segment gives
+        parts = []
+        for n in lines:
+            t2, r2 = valcorr.summarize(valcorr.run_segment_level(n, soll))
+            parts = None if t2 != "ok" or parts is None else parts + r2
+        if parts is not None and parts != rows:
+            ctx.fail(f"level|{key}", dict(valcorr.describe(case), entry="validate_segment_level"), f"the rows of validate_deep_anwendungshandbuch: {[(r[0], r[1]) for r in rows][:12]}",
+                     f"{[(r[0], r[1]) for r in parts][:12]}", "oracle: validate_segment_level on the top-level groups reports what validate_deep_anwendungshandbuch reports for them")
+        sg = valcorr.first_segment(lines[0]) if lines else None
+        if sg is not None:
+            a, b = valcorr.summarize(valcorr.run_segment_level(sg, soll)), valcorr.summarize(valcorr.run_segment(sg, None, soll))
+            if a != b:
+                ctx.fail(f"level-segment|{key}", dict(valcorr.describe(case), entry="validate_segment_level", segment=sg[1]), str(b)[:400], str(a)[:400],
+                         "oracle: validate_segment_level on a segment is validate_segment on it")
     except _OutOfOrder:
         got = [r[0] for r in rows]
         ctx.fail(f"order|{key}", valcorr.describe(case), f"document order, pruned below forbidden nodes: {trace[:-1]} then {trace[-1]!r} as row {pos[0]}", f"{got}",
